@@ -17,7 +17,7 @@ import (
 
 func init() {
 	registerReplay("sched", schedReplay)
-	for _, n := range []string{"kf.C12-a", "kf.C12-b", "kf.C12-c", "kf.C13-a"} {
+	for _, n := range []string{"kf.C12-a", "kf.C12-b", "kf.C12-c", "kf.C13-a", "kf.C07-b"} {
 		name := n
 		registerReplay(name, func(in []string, id int) hx.Case {
 			c := schedReplay(in, id)
@@ -27,9 +27,10 @@ func init() {
 	}
 }
 
-// every version has its own length, so that a Size taken from one version's metadata never fits another's body
+// every version has its own length (newer ones are shorter), so that a Size or Content-Length taken from one
+// version never fits another's body
 func schedBody(v int) []byte {
-	return []byte(fmt.Sprintf("body-of-version-%d-0123456789abcdef%s", v, strings.Repeat("+", v%10)))
+	return []byte(fmt.Sprintf("body-of-version-%d-0123456789abcdef%s", v, strings.Repeat("+", 9-v%10)))
 }
 
 // schedReplay walks the real goroutines along a schedule chosen by the interleaving model.
